@@ -171,6 +171,7 @@ class Exec:
         self.dump_queries = None  # list collecting (smt2, result) samples for cross-solver checks
         self.exact_consts = False  # symbolic runs: literal/converted constants are exact Fractions (consistent with XR's exact reals)
         self._frag_stop = None
+        self.sqrt_mode = 'exact'   # 'exact': s >= 0, s*s = x;  'monotone': order-only facts (keeps queries out of NRA when only comparisons matter)
         self.fork_minmax = False   # fmin/fmax fork into two paths instead of producing an ite term
         self.stubs = {}           # function name -> callable(path, caller, ins, argvalues): replaces a callee (stated per harness)
         self.floor_hook = None    # callable(path, operand, is_ceil) -> XR, or None for the normal semantics
@@ -696,7 +697,17 @@ class Exec:
             path.fresh += 1
             s = z3.Real('sqrt!%d' % path.fresh)
             x = v.val
-            path.assume(z3.And(s >= 0, z3.Implies(x >= 0, s * s == x), z3.Implies(x < 0, s == 0)))
+            if self.sqrt_mode == 'monotone':
+                # order-only model (sound facts about the real square root): non-negative, zero iff x is zero, below max(1, x),
+                # and strictly monotone with respect to every other square root taken on this path
+                facts = [s >= 0, z3.Implies(x < 0, s == 0), z3.Implies(x >= 0, (s == 0) == (x == 0)),
+                         z3.Implies(x >= 1, s <= x), z3.Implies(z3.And(x >= 0, x <= 1), s <= 1)]
+                for s2, x2 in getattr(path, 'sqrts', []):
+                    facts.append(z3.Implies(z3.And(x >= 0, x2 >= 0), z3.And((x < x2) == (s < s2), (x == x2) == (s == s2))))
+                path.sqrts = getattr(path, 'sqrts', []) + [(s, x)]
+                path.assume(z3.And(*facts))
+            else:
+                path.assume(z3.And(s >= 0, z3.Implies(x >= 0, s * s == x), z3.Implies(x < 0, s == 0)))
             neg = x < 0
             return XR(s, None, nan=b_or(v.nan, v.ninf, b_and(v.fin(), neg)), pinf=v.pinf)
         if name in ('exp', 'log'):
@@ -955,6 +966,7 @@ class Exec:
             ended = 'stop'
         finally:
             self._frag_stop = None
+        self.sqrt_mode = 'exact'   # 'exact': s >= 0, s*s = x;  'monotone': order-only facts (keeps queries out of NRA when only comparisons matter)
         out = {k: p.obj.cells[0] for k, p in names.items()}
         out['__ended'] = ended
         out['__ret'] = r
